@@ -8,7 +8,18 @@ import (
 	"golang.org/x/tools/go/ssa"
 )
 
-type hw struct{ addr, val *Term }
+type hw struct {
+	addr, val *Term
+	reg       *regionEntry // non-nil: a region havoc (addr/val unused)
+}
+
+// regionEntry records that a region of the heap component was forgotten: nb is the whole array right after
+// the havoc (related to the array before by a frame axiom); pred classifies an address syntactically:
+// 1 = inside the region, 0 = provably outside, -1 = unknown.
+type regionEntry struct {
+	nb   *Term
+	pred func(addr *Term) int
+}
 
 // HeapArr is one component of the heap: an SMT array IdxSort -> ElSort,
 // kept as a base array plus a list of writes so that reads can be resolved syntactically.
@@ -28,17 +39,42 @@ func (h *HeapArr) clone() *HeapArr {
 
 func (h *HeapArr) arraySort() string { return "(Array " + h.IdxSort + " " + h.ElSort + ")" }
 
-func (h *HeapArr) arrayTerm() *Term {
+func (h *HeapArr) arrayUpTo(n int) *Term {
 	t := h.Base
-	for _, w := range h.Writes {
+	start := 0
+	for i := n - 1; i >= 0; i-- {
+		if h.Writes[i].reg != nil {
+			t = h.Writes[i].reg.nb
+			start = i + 1
+			break
+		}
+	}
+	for _, w := range h.Writes[start:n] {
 		t = mk(h.arraySort(), "store", t, w.addr, w.val)
 	}
 	return t
 }
 
+func (h *HeapArr) arrayTerm() *Term { return h.arrayUpTo(len(h.Writes)) }
+
+// regionHavoc forgets a region; reads at addresses provably outside the region still resolve syntactically.
+func (h *HeapArr) regionHavoc(nb *Term, pred func(addr *Term) int) {
+	h.Writes = append(h.Writes, hw{reg: &regionEntry{nb: nb, pred: pred}})
+}
+
+func predAll(*Term) int { return 1 }
+
 func (h *HeapArr) read(addr *Term) *Term {
 	for i := len(h.Writes) - 1; i >= 0; i-- {
 		w := h.Writes[i]
+		if w.reg != nil {
+			switch w.reg.pred(addr) {
+			case 0:
+				continue // provably outside the forgotten region: value is what it was before
+			default:
+				return mk(h.ElSort, "select", h.arrayUpTo(i+1), addr)
+			}
+		}
 		if termEq(w.addr, addr) {
 			return w.val
 		}
@@ -46,17 +82,13 @@ func (h *HeapArr) read(addr *Term) *Term {
 			continue
 		}
 		// unknown aliasing: full term over the prefix
-		t := h.Base
-		for _, w2 := range h.Writes[:i+1] {
-			t = mk(h.arraySort(), "store", t, w2.addr, w2.val)
-		}
-		return mk(h.ElSort, "select", t, addr)
+		return mk(h.ElSort, "select", h.arrayUpTo(i+1), addr)
 	}
 	return mk(h.ElSort, "select", h.Base, addr)
 }
 
 func (h *HeapArr) write(addr, val *Term) {
-	h.Writes = append(h.Writes, hw{addr, val})
+	h.Writes = append(h.Writes, hw{addr: addr, val: val})
 }
 
 type deferRec struct {
